@@ -79,6 +79,9 @@ func genC13(t *core.Tape, tier string) *Scenario {
 			}
 			p.K = genKnobs(t, p.Kind)
 			p.K.MutateURL = mutURL
+			// a context that can be cancelled (so the library watches it) and
+			// outlives the call: one more library goroutine per call
+			p.LiveCtx = t.Bool(1, 3, "live.ctx")
 			nreq, nresp := 1, 1
 			if p.Kind == KClient || p.Kind == KBidi {
 				nreq = t.Choose(4, "nreq")
